@@ -286,6 +286,14 @@ class ChainState:
                 decorators and values corresponding to cached computed outputs of these
                 methods or `None` for when a cached output is not available.
         """
+        if _read_only:
+            # Attribute assignment is blocked for read-only states but augmented
+            # assignments such as `state.mom -= ...` would update array variables in place
+            # before the assignment is rejected, therefore hold read-only views of arrays
+            for name, value in variables.items():
+                if isinstance(value, np.ndarray):
+                    variables[name] = value.view()
+                    variables[name].flags.writeable = False
         # Set attributes by directly writing to __dict__ to ensure set before
         # any call to __setattr__
         self.__dict__["_variables"] = variables
@@ -367,7 +375,14 @@ class ChainState:
         }
 
     def __setstate__(self, state: dict[str, Any]) -> None:
-        self.__dict__["_variables"] = state["variables"]
+        variables = state["variables"]
+        if state["read_only"]:
+            # Read-only flag of arrays is not preserved when pickling
+            for name, value in variables.items():
+                if isinstance(value, np.ndarray):
+                    variables[name] = value.view()
+                    variables[name].flags.writeable = False
+        self.__dict__["_variables"] = variables
         self.__dict__["_dependencies"] = state["dependencies"]
         self.__dict__["_cache"] = state["cache"]
         self.__dict__["_call_counts"] = state["call_counts"]
